@@ -86,6 +86,8 @@ class Engine:
             "crash": None,
             "sched_seed": rng.randrange(1 << 62),
             "labels": [0] * n_proc if rng.random() < 0.7 else [rng.randrange(2) for _ in range(n_proc)],
+            # processes that have used ANOTHER cache database before (their per-process memo is not empty)
+            "warm_other": rng.randrange(1 << n_proc) if rng.random() < 0.4 else 0,
         }
         if config == "stall":
             for _ in range(rng.choice([1, 1, 2])):
@@ -170,6 +172,10 @@ class Engine:
         if plan["gc_latency_us"] != 0:
             p = copy.deepcopy(plan)
             p["gc_latency_us"] = 0
+            yield p
+        if plan.get("warm_other"):
+            p = copy.deepcopy(plan)
+            p["warm_other"] = 0
             yield p
         if plan.get("fine"):
             p = copy.deepcopy(plan)
@@ -283,6 +289,11 @@ class Engine:
             sprocs = [procs.SimProcess(plabels[k]) for k in range(n_proc)]
             if len(set(plabels)) > 1:
                 bump("probe:mixed_versions")
+            for k in range(n_proc):
+                if (plan.get("warm_other", 0) >> k) & 1:
+                    sprocs[k].parse("model VerifOther Real x; equation x = 2; end VerifOther;",
+                                    model_cache_folder=Path(sandbox) / ("other_cache_%d" % (k % 2)))
+                    bump("probe:process_used_another_database_before")
             outcomes = []  # (seq, actor, call index, kind, detail, site, last seam)
             last_seam = {}
             orig_yield = sched.yield_point
